@@ -40,14 +40,23 @@ def manager_for(case):
     if case.get("pre") is not None:
         m = None  # history family: always a fresh manager, configured through the public setters only
     if m is None:
-        m = scenarios.build_manager(method, flow=flow, flow_rate=case.get("flow_rate", 0.5), geo=geo, hmax=HMAX, hmin=HMIN)
+        kw = {}
+        if case.get("pre") is not None and "world" in case:
+            # history family: the very first configuration of this manager is more lenient than the one that is finally designed for
+            mx0, mn0 = LIMITS[case["world"].get("limits", "narrow")]
+            kw = {"max_eft": mx0 + 9.0, "min_eft": mn0 - 9.0}
+        m = scenarios.build_manager(method, flow=flow, flow_rate=case.get("flow_rate", 0.5), geo=geo, hmax=HMAX, hmin=HMIN, **kw)
         if case.get("pre") is None:
             _MGR[key] = m
     mxa, mna = LIMITS[case["world"].get("limits", "narrow")] if "world" in case else LIMITS["narrow"]
     if case.get("pre") is not None:
         # earlier use of the same manager: configure, design, run once, then reconfigure with the public setters and design again
         pre = case["pre"]
-        m.set_simulation_parameters(num_months=24, max_eft=mxa, min_eft=mna, max_height=HMAX, min_height=HMIN, max_boreholes=pre.get("cap"),
+        # the earlier configuration has other temperature limits and another horizon (every argument of the second call differs from the first)
+        # (unless only the design call is repeated below: then the parameters are set once and must already be the final ones)
+        only_design_again = (pre.get("cap"), bool(pre.get("cont"))) == (case.get("cap"), bool(case.get("cont"))) and pre.get("flow", flow) != flow
+        off = 0.0 if only_design_again else 9.0
+        m.set_simulation_parameters(num_months=24 if only_design_again else 36, max_eft=mxa + off, min_eft=mna - off, max_height=HMAX, min_height=HMIN, max_boreholes=pre.get("cap"),
                                     continue_if_design_unmet=bool(pre.get("cont", False)))
         m.set_design(flow_rate=pre.get("flow_rate", case.get("flow_rate", 0.5)), flow_type_str=pre.get("flow", flow))
         _inject(m, case)
@@ -645,9 +654,12 @@ def expand(chunk):
                         for pre_flow, flow, rate in (("borehole", "borehole", 0.5), ("borehole", "system", 2.5), ("system", "borehole", 0.5)):
                             if pre_flow != flow and (pre_cap, cap, pre_cont, cont) != (None, None, False, False):
                                 continue
-                            yield {"fam": fam, "method": method, "synthetic": [counts], "cap": cap, "cont": cont, "flow": flow, "flow_rate": rate,
-                                   "pre": {"cap": pre_cap, "cont": pre_cont, "flow": pre_flow, "flow_rate": 0.5 if pre_flow == "borehole" else 2.5},
-                                   "world": {"kind": "roots", "roots": roots, **WVARS[0]}, "t": t, "cls": cls}
+                            # the binding side is the upper limit in one world and the lower limit in the other (an earlier
+                            # configuration's limit left behind shows only on the side it binds)
+                            for wv in (WVARS if (pre_cap, cap, pre_cont, cont, pre_flow) == (None, None, False, False, "borehole") else WVARS[:1]):
+                                yield {"fam": fam, "method": method, "synthetic": [counts], "cap": cap, "cont": cont, "flow": flow, "flow_rate": rate,
+                                       "pre": {"cap": pre_cap, "cont": pre_cont, "flow": pre_flow, "flow_rate": 0.5 if pre_flow == "borehole" else 2.5},
+                                       "world": {"kind": "roots", "roots": roots, **wv}, "t": t, "cls": cls}
     elif fam == "A2":
         n = chunk["n"]
         counts = list(range(1, n + 1))
